@@ -1030,7 +1030,7 @@ var c23Universes = map[string]*c23U{
 	// a handle with two addresses of which the pod reports one or both
 	"handle": {Name: "handle", Duals: []string{"d1"}, Pods: []string{"p1"}, Nodes: []string{"n1"}, PoolCIDR: "10.0.0.0/29", BlockSize: 31,
 		Init: []c23Ev{{Op: "podadd", Pod: "d1", Node: "n1"}, {Op: "syncall"}},
-		Ops:  "podadd poddel dropip podevict syncpods deliver syncall adv+ sync"},
+		Ops:  "podadd poddel dropip podevict syncpods deliver syncall adv+ sync fullsync"},
 	// node deletion, tunnel address, affinities
 	"node0": {Name: "node0", Pods: []string{"p1"}, Nodes: []string{"n1", "n2"}, PoolCIDR: "10.0.0.0/28", BlockSize: 30,
 		Ops: "podadd poddel poddelclean tunneladd nodedel syncpods syncnodes deliver syncall adv+ sync fullsync"},
@@ -1092,7 +1092,7 @@ func TestVerif_C23(t *testing.T) {
 		plan := []struct {
 			u    string
 			q, t int
-		}{{"leak", 6, 9}, {"leak0", 7, 9}, {"handle", 8, 10}, {"node", 7, 10}, {"node0", 6, 9}, {"blocks", 6, 9}}
+		}{{"leak", 6, 8}, {"leak0", 6, 8}, {"handle", 7, 9}, {"node", 7, 9}, {"node0", 6, 8}, {"blocks", 6, 8}}
 		for _, p := range plan {
 			hbfs.Explore(c, c23Spec(c, c23Universes[p.u], c.Pick(p.q, p.t), false, w))
 		}
